@@ -65,6 +65,25 @@ def rule_integer_asserts(col, facts):
                 t = b["t"]
                 if t["k"] == "call" and callee_name(t["f"]).endswith("RangeInclusive::new"):
                     rng = [a[1].get("v") for a in t["a"] if a[0] == "k"]
+        # the two assertions may live in a helper that is called first (`check_radix_table(radix, table)`): a safe
+        # function of this crate whose own body asserts the range and the table length on its parameters
+        helpers = []
+        for hb, hc, ha, _hd, _ht in f.calls():
+            for h in facts.by_short.get(callee_name(hc), []):
+                if h.crate != f.crate or h.short == f.short or h.unsafe:
+                    continue
+                hrng = None
+                for pm in h.promoted:
+                    for b in pm["blocks"]:
+                        t = b["t"]
+                        if t["k"] == "call" and callee_name(t["f"]).endswith("RangeInclusive::new"):
+                            hrng = [a_[1].get("v") for a_ in t["a"] if a_[0] == "k"]
+                has_contains = any(callee_name(c2).endswith("RangeInclusive::contains") for _b, c2, _a, _d, _t in h.calls())
+                has_len = any(st[0] == "=" and st[2][0] == "bin" and st[2][1] in ("Ge", "Le") for b in h.blocks for st in b["s"])
+                if has_contains and hrng is not None:
+                    helpers.append((hb, [G.norm(G.root(strip_casts(op_expr(f, x)))) for x in ha], hrng, has_len))
+        if rng is None and helpers:
+            rng = helpers[0][2]
         col.check(R, last_seg(name) + ":radix-range", rng == [2, 36], "assert!((2..=36).contains(&radix)) uses range %s" % rng, f.loc())
         for bb, c, a, d, t in f.calls():
             cn = callee_name(c)
@@ -80,6 +99,12 @@ def rule_integer_asserts(col, facts):
             ok_radix = _has(conds, lambda e, p: e[0] == "call" and e[1].endswith("RangeInclusive::contains") and p is True and any(G.norm(G.root(x)) == G.norm(radix) for x in e[2]))
             ok_table = _has(conds, lambda e, p: e[0] == "bin" and e[1] == "Ge" and p is True and strip_casts(e[2])[0] == "call" and strip_casts(e[2])[1].endswith("::len") and G.root(strip_casts(e[2])[2][0]) == table
                             and "Mul" in str(e[3]))
+            for hb, hargs, _hr, has_len in helpers:
+                if f.dominates(hb, bb) and hb != bb:
+                    if G.norm(G.root(radix)) in hargs:
+                        ok_radix = True
+                    if has_len and G.norm(table) in hargs:
+                        ok_table = True
             count = args[-1]
             ok_count = _has(conds, lambda e, p: e[0] == "bin" and e[1] == "Le" and p is True and G.norm(strip_casts(e[2])) == G.norm(count) and strip_casts(e[3])[0] == "call" and strip_casts(e[3])[1].endswith("::len"))
             is_dc = count[0] == "call" and count[1].endswith("DigitCount::digit_count")
